@@ -6,6 +6,7 @@ import Driver.Util
 import Driver.OpsNLV
 import Driver.OpsOrder
 import Driver.OpsIRI
+import Driver.OpsColl
 open Lean Driver
 
 def dispatch (op : String) (j : Json) : R Json :=
@@ -15,6 +16,7 @@ def dispatch (op : String) (j : Json) : R Json :=
   | "order" => opOrder j
   | "iriEquals" => opIriEquals j
   | "irisContains" => opIrisContains j
+  | "coll" => opColl j
   | _ => .error s!"unknown op {op}"
 
 partial def loop (h : IO.FS.Stream) (out : IO.FS.Stream) : IO Unit := do
